@@ -331,7 +331,14 @@ class InterpStmts:
                 return st.setvar(name, Alias(v.origin, v.kind), fid)
             return st.setvar(name, SV(v.kind, v.tree, ("var", fid, name)), fid)
         if isinstance(v, (list, set, dict)) and not v:
-            # empty literal of yet unknown element kind: typed at first use
+            # empty literal: its kind comes from the contract's `vars` table (or stays untyped until then)
+            info = self.frame_func.get(fid)
+            hint = None
+            if info is not None:
+                hint = ((self.cset.functions.get(info[1]) or {}).get("vars") or {}).get(name)
+            if hint is not None:
+                k = parse_kind(hint)
+                return st.setvar(name, SV(k, default_tree(k), ("var", fid, name)), fid)
             return st.setvar(name, self.EmptyLit(type(v)), fid)
         return st.setvar(name, v, fid)
 
@@ -619,13 +626,37 @@ class InterpStmts:
                 else:
                     raise Unsupported("loop-modified tuple variable %r needs a kind" % name)
             # functions / classes: not havocked
-        mods = self.active_modifies(st, lc)
+        mods = self.active_modifies(st, lc, body_nodes)
         s = self.havoc_heap(s, mods, label)
         return s
 
-    def active_modifies(self, st, lc):
+    PURE_CALLS = {"len", "int", "float", "str", "bool", "abs", "min", "max", "sum", "sorted", "set", "list", "tuple",
+                  "dict", "frozenset", "range", "enumerate", "zip", "isinstance", "all", "any", "round", "repr"}
+
+    def body_may_write_heap(self, nodes):
+        """syntactic: does the loop body contain anything that could write an object field?"""
+        for root in nodes:
+            for n in ast.walk(root):
+                if isinstance(n, ast.Call):
+                    f = n.func
+                    if isinstance(f, ast.Name) and f.id in self.PURE_CALLS:
+                        continue
+                    return True
+                if isinstance(n, (ast.Attribute, ast.Subscript)) and isinstance(n.ctx, (ast.Store, ast.Del)):
+                    base = n.value
+                    while isinstance(base, ast.Subscript):
+                        base = base.value
+                    if not isinstance(base, ast.Name):
+                        return True
+                    if isinstance(n, ast.Attribute):
+                        return True
+        return False
+
+    def active_modifies(self, st, lc, body_nodes=None):
         if lc is not None and lc.get("modifies") is not None:
             return self.eval_modifies(st, lc["modifies"])
+        if body_nodes is not None and not self.body_may_write_heap(body_nodes):
+            return []
         if st.modstack:
             return st.modstack[-1]["items"]
         return []
@@ -665,14 +696,30 @@ class InterpStmts:
                 same = teq(tselect(new, r), tselect(old, r))
                 cond = z3.And(r < nref0, *[r != t for t in tgts])
                 s.pc.append(z3.ForAll([r], z3.Implies(cond, same)))
-            s.pc.extend(self.heap_typing(s, cls, fld))
+        if fields:
+            s.pc.extend(self.all_heap_typing(s))
         return s
+
+    def all_heap_typing(self, st):
+        """objects allocated meanwhile are well typed too: every reference stored in any field is allocated"""
+        out = []
+        for cls, c in self.cset.classes.items():
+            for fld, k in c["fields"].items():
+                if self.contains_obj(k):
+                    out.extend(self.heap_typing(st, cls, fld))
+        return out
 
     def cut_loop(self, stmt, spec, lc, ordinal, st):
         SV = self.SV
         label = "loop%s" % ordinal
         invs = lc.get("inv") or lc.get("invariant") or []
-        ghost0 = {}
+        ghost_init = [n for t in (lc.get("ghost_init") or []) for n in ast.parse(t).body]
+        ghost_step = [n for t in (lc.get("ghost_step") or []) for n in ast.parse(t).body]
+        if ghost_init:
+            outs = [o for o in self.exec_block(ghost_init, st)]
+            if len(outs) != 1 or outs[0][0] != "next":
+                raise Unsupported("ghost_init must be straight-line code")
+            st = outs[0][1]
         # ---- ghost progress variable
         if spec.mode == "set":
             kk = spec.ekind
@@ -689,7 +736,7 @@ class InterpStmts:
             g = self.eval_spec(inv, s_entry, {"done": done_entry, **self.loop_ghost(spec)})
             self.emit(st, "inv-entry", "%s[%d]" % (label, i), g)
         # ---- arbitrary iteration
-        body_nodes = list(stmt.body) + [stmt.target]
+        body_nodes = list(stmt.body) + [stmt.target] + ghost_step
         sh = self.havoc_for_loop(st, body_nodes, lc, label)
         sh.entry = st
         if spec.mode == "set":
@@ -719,6 +766,11 @@ class InterpStmts:
             for s1 in self.assign(stmt.target, elem, sb):
                 for tag, s2, payload in self.exec_block(stmt.body, s1):
                     if tag in ("next", "continue"):
+                        if ghost_step:
+                            gouts = [o for o in self.exec_block(ghost_step, s2)]
+                            if len(gouts) != 1 or gouts[0][0] != "next":
+                                raise Unsupported("ghost_step must be straight-line code")
+                            s2 = gouts[0][1]
                         s2c = s2.copy()
                         s2c.entry = st
                         for i, inv in enumerate(invs):
@@ -1353,6 +1405,13 @@ class InterpStmts:
         s1 = st.assume(*[z3.Not(rc) for rc in raise_conds]) if raise_conds else st
         # 3. frame + havoc
         s2 = self.apply_modifies(s1, c, env, f, label) if not st.pure else s1
+        if not st.pure:
+            # the callee may allocate
+            s2 = s2.copy()
+            n2 = z3.Int(core.fresh_name("nref"))
+            s2.pc.append(n2 >= s2.nref)
+            s2.nref = n2
+            s2.pc.extend(self.all_heap_typing(s2))
         # 4. result
         rk = c.get("returns")
         if rk is None:
